@@ -1,20 +1,28 @@
 D = 'babylon::anyflow::GraphDependency'
 V = 'babylon::anyflow::GraphVertex'
 GD = 'babylon::anyflow::GraphData'
+DV = 'std::vector<babylon::anyflow::GraphDependency>'
+DIT = '__gnu_cxx::__normal_iterator<babylon::anyflow::GraphDependency*,std::vector<babylon::anyflow::GraphDependency>>'
 GROUP = dict(
     prop='C05',
     driver='driver.cpp',
     spec='spec.h',
     aliases=[(D, 'Dep'), (V, 'Vertex'), (GD, 'Data'), ('babylon::anyflow::', '')],
-    outside_methods={'absl::InlinedVector<babylon::anyflow::GraphVertex*,128>': ['emplace_back'], 'absl::InlinedVector<babylon::anyflow::GraphData*,128>': ['emplace_back']},
-    opaque_records=[GD, V, 'babylon::anyflow::ClosureContext'],
-    extern_re=[r'anyflow::GraphData::', r'anyflow::GraphVertex::(closure|ready)', r'anyflow::ClosureContext::'],
-    roots=[D + '::activate', D + '::ready', D + '::check_established'],
+    outside_methods={DV: ['size', 'begin', 'end'], DIT: ['operator!=', 'operator==', 'operator++', 'operator*'], 'std::unique_ptr<babylon::anyflow::GraphProcessor>': ['operator->'],
+                     'absl::InlinedVector<babylon::anyflow::GraphVertex*,128>': ['emplace_back'], 'absl::InlinedVector<babylon::anyflow::GraphData*,128>': ['emplace_back']},
+    opaque_records=[GD, 'babylon::anyflow::ClosureContext', 'babylon::anyflow::GraphProcessor', 'babylon::anyflow::GraphVertexBuilder', 'babylon::anyflow::Graph'],
+    opaque_by_value=[DV, 'std::vector<babylon::anyflow::GraphData*>', 'std::unique_ptr<babylon::anyflow::GraphProcessor>'],
+    extra_structs={DIT: 'struct @ { struct Dep *p; };'},
+    trivial_copy=[DIT],
+    extern_re=[r'anyflow::GraphData::', r'anyflow::GraphVertex::closure', r'anyflow::GraphProcessor::', r'anyflow::ClosureContext::'],
+    roots=[D + '::activate', D + '::ready', D + '::check_established', V + '::activate', V + '::ready'],
     reviewed_compiler_conditionals=[],
     assumptions=['SC; interleavings in which preemptions nest (a preempted party resumes after the preempting ones finished), switch points at every atomic operation and every read of shared data state',
                  'no party fails (acquire_*_depend succeed, recursive_activate returns 0); GraphData::release sets the ready flag before it tells the successor dependencies',
                  'everything above the dependency (vertex counters, closure, executor, data publication, graph evaluation order) is not under contract'],
     jobs=[
-        dict(id='C05.dependency.lemma', harness='lemma_dependency_finished_once', kind='lemma', unwind=3, backend='cadical', timeout=900),
+        dict(id='C05.dependency.lemma', harness='lemma_dependency_finished_once', kind='lemma', unwind=3, backend='cadical', timeout=900, defines=['VF_LEMMA 1']),
+        dict(id='C05.vertex.activate', enforce='Vertex_activate', replace=['Dep_activate'], loops=True, backend='cadical', defines=['VF_VERTEX 1']),
+        dict(id='C05.vertex.ready', enforce='Vertex_ready', backend='cadical', defines=['VF_VERTEX 1']),
     ],
 )
